@@ -67,6 +67,13 @@ def layouts(ty, has_int_repr):
                                      ("D", UNIT, None), ("E", UNIT, None)]))
     out.append(("constexpr_cast", [("A", UNIT, "3u8 as %s" % ty), ("B", UNIT, None),
                                    ("C", UNIT, "K_BASE * 2"), ("D", UNIT, None)]))
+    if b >= 16 or ty == "u8":
+        # a run of more than 128 implicit discriminants (the offset no longer fits an i8 literal - seed C12-long-implicit-run-offset-off-by-one),
+        # from the start of the enum and after an explicit one following a variant with fields
+        out.append(("long_run", [("V%d" % i, UNIT, None) for i in range(140)]))
+    if b >= 16 and has_int_repr:
+        out.append(("long_run_anchored", [("First", UNIT, "-200" if s else "300"), ("WithField", TUP, None)]
+                    + [("V%d" % i, UNIT, None) for i in range(135)] + [("Next", UNIT, "1000"), ("AfterNext", UNIT, None)]))
     if b >= 64:
         out.append(("wide", [("A", UNIT, None), ("B", UNIT, "1 << 40"), ("C", UNIT, None),
                              ("D", UNIT, "0x7fff_ffff_ffff_fff0"), ("E", UNIT, None)]))
@@ -178,7 +185,10 @@ def shapes(tier):
         for li, (lname, variants) in enumerate(layouts(ty, has_int)):
             for gi, (gname, gdecl, guse, gextra) in enumerate(GENERICS):
                 # generic headers only on a rotating subset, they are independent of the layout
-                if gname != "plain" and (li + ri) % 6 != gi:
+                if gname != "plain" and ((li + ri) % 6 != gi or lname.startswith("long_run")):
+                    continue   # (the generic extras carry the discriminants 100 / 102, inside a long run)
+                # 140-variant enums are the expensive programs of this grid: one per width / signedness is enough
+                if lname.startswith("long_run") and rtag not in ("norepr", "u8", "i16", "u32", "i64", "C_u8" if lname == "long_run" else "i16_C"):
                     continue
                 # fielded generic extras carry explicit discriminants (100, 102): integer repr needed
                 if gextra and not has_int:
